@@ -133,7 +133,9 @@ type countKMS struct {
 	decs  atomic.Int64
 }
 
-func (c *countKMS) EncryptKey(ctx context.Context, b []byte) ([]byte, error) { return c.inner.EncryptKey(ctx, b) }
+func (c *countKMS) EncryptKey(ctx context.Context, b []byte) ([]byte, error) {
+	return c.inner.EncryptKey(ctx, b)
+}
 func (c *countKMS) DecryptKey(ctx context.Context, b []byte) ([]byte, error) {
 	c.decs.Add(1)
 	return c.inner.DecryptKey(ctx, b)
@@ -509,19 +511,24 @@ func (w *world) close() {
 	w.kms.Close()
 }
 
-var nSched, nViol, nBlocked, nPoints int
+var nSched, nViol, nBlocked, nPoints, leaksSeen int
 
 // settled waits for the asynchronous removers / eviction callbacks to finish after everything was
 // closed and reports how many secrets are still live (0 = every key was released).
 func (w *world) settled() int64 {
 	// (wall-clock patience only matters when something IS still live: 20 s, so that a machine busy with
 	// other work cannot turn a slow remover goroutine into a reported leak)
-	for i := 0; i < 4000; i++ {
+	patience := 4000
+	if leaksSeen >= 3 {
+		patience = 200 // leaks are established for this run: no need to wait long for each further one
+	}
+	for i := 0; i < patience; i++ {
 		if atomic.LoadInt64(&w.sf.live) == 0 {
 			return 0
 		}
 		time.Sleep(5 * time.Millisecond)
 	}
+	leaksSeen++
 	return atomic.LoadInt64(&w.sf.live)
 }
 
